@@ -104,7 +104,14 @@ def run(case):
             dev.version_plan = list(cfg["lat"])
             if cfg["mode"] == "watchdog_silence":
                 dev.version_plan += [None] * 200  # after the drawn answers: silence
-            world.start()
+            try:
+                world.start()
+            except (kernel.SimAbort, kernel.Deadlock):
+                raise
+            except Exception as exc:  # pylint: disable=broad-except
+                # a failing dial must be retried by the connect loop, not surface from start()
+                violations.append(_vio("start-raised", {"exc": repr(exc), "plan": cfg["plan"][:4]}, exc=type(exc).__name__, flavour=flavour))
+                raise _Done()
             if cfg["mode"] == "stop_during_retry":
                 name, when = case["ops"][0]
                 world.advance(when)
